@@ -42,6 +42,10 @@ func (l *streamLog) add(ts time.Time, sequenceNumber uint16, ecn uint8) {
 	if unwrappedSequenceNumber < l.nextSequenceNumberToReport {
 		return
 	}
+	if _, ok := l.log[unwrappedSequenceNumber]; ok {
+		// duplicate: keep the arrival time of the first copy
+		return
+	}
 	l.log[unwrappedSequenceNumber] = &packetReport{
 		arrivalTime: ts,
 		ecn:         ecn,
